@@ -413,6 +413,13 @@ def step (d : DState) (line : String) : DState × List String :=
       let args := (List.range n).map (fun i => s!"#{i}")
       let kw := if kws = "-" then [] else (kws.splitOn ",").map (fun k => (k, k))
       (d, ["vbind " ++ ",".intercalate (Bind.bindPos P args kw)])
+  | ["gsetax", nd, sh, kind, ax] =>
+      let axes : Nat ⊕ List Nat := if kind == "int" then .inl ax.toNat! else .inr (shapeOfTok ax)
+      (d, [match Shp.setAxesFull nd.toNat! (shapeOfTok sh) axes with
+           | some r => s!"shape {showShape r}"
+           | none => "err"])
+  | ["gexpand", mode, nd, sh] =>
+      (d, [s!"shape {showShape ((if mode == "append" then Shp.expandAppend else Shp.expandPrepend) nd.toNat! (shapeOfTok sh))}"])
   | "ggrid" :: kdim :: vals => (d, ["grid " ++ " ".intercalate (Shp.getGrid vals kdim.toNat!)])
   | ["gbatch", sh, ndim] => (d, [s!"shape {showShape (Shp.appendBatchAxes (shapeOfTok sh) ndim.toNat!)}"])
   | "bcast" :: shapes =>
